@@ -10,6 +10,7 @@ import (
 	"math"
 	"sort"
 	"strings"
+	"sync"
 	"time"
 
 	"pipelined.dev/signal"
@@ -566,7 +567,35 @@ func (g *Kern) emitKPos(sk, dk Kind, specials []uint64) {
 		}
 		g.emitK(sk, dk, xs)
 	}
+	// one special value among benign ones, at the first / second / last-but-one / last position of buffers whose
+	// length is next to 64, 128, 256, 1024 (scans that look at samples in pairs or blocks miss an end)
+	benign := specials[len(specials)/2]
+	if sk.IsFloat() {
+		benign = floatCell(0.25, sk)
+	}
+	for li, L := range []int{63, 64, 65, 127, 129, 255, 257, 1023, 1025} {
+		sp := specials[(li*3+len(specials)-1)%len(specials)]
+		for _, pos := range []int{0, 1, L - 2, L - 1} {
+			xs := make([]uint64, L)
+			for i := range xs {
+				xs[i] = benign
+			}
+			xs[pos] = sp
+			ys := runKernel(sk, dk, xs)
+			g.flushPanics()
+			// only the neighbourhood of the special value goes to the model (the rest repeats one pair)
+			fmt.Fprintf(g.out, "kseq %s %s %s\n", convName(sk, dk), sk, dk)
+			for _, i := range []int{pos - 1, pos, pos + 1} {
+				if i >= 0 && i < L {
+					fmt.Fprintf(g.out, "k %s %s\n", cellString(xs[i], sk), cellString(ys[i], dk))
+					g.st.lines++
+				}
+			}
+			g.st.lines++
+		}
+	}
 	g.longScreen(sk, dk, specials)
+	g.hugeScreen(sk, dk, specials)
 }
 
 // longScreen: very long buffers (parallel or chunked conversion paths). The result at position i may
@@ -828,6 +857,98 @@ func genC16(g *Kern, r *Rng, tier string) {
 		g.st.cases++
 	}
 	g.st.sample("bd 24 8388607 16777215 -8388608")
+	c16Concurrent(g, r, tier)
+}
+
+// c16Concurrent: the bit-depth functions are pure; called from many goroutines at once, each with its own depth,
+// they must return what they return alone (process-wide caches of "the last depth" are shared state). Results that
+// differ from the sequential ones are emitted as ordinary `sv` / `uv` / `bd` lines for the predicates to judge.
+func c16Concurrent(g *Kern, r *Rng, tier string) {
+	depths := []int{8, 16, 24, 32, 5, 63, 64, 1, 12, 48}
+	iters := 30000
+	if tier == "thorough" {
+		iters = 400000
+	}
+	type rec struct {
+		kind string
+		b    int
+		v    uint64
+		got  uint64
+	}
+	var mu sync.Mutex
+	var bad []rec
+	var wg sync.WaitGroup
+	for gi, d := range depths {
+		wg.Add(1)
+		seed := r.Next()
+		go func(gi, d int, seed uint64) {
+			defer wg.Done()
+			defer func() { recover() }()
+			lr := &Rng{s: seed}
+			bd := signal.BitDepth(d)
+			// sequential reference, computed before the other goroutines start mattering: plain arithmetic
+			maxS := int64(1)<<(d-1) - 1
+			minS := -int64(1) << (d - 1)
+			maxU := uint64(1)<<(d%64) - 1
+			if d == 64 {
+				maxU = ^uint64(0)
+			}
+			for it := 0; it < iters; it++ {
+				v := lr.Next()
+				if it%3 == 0 {
+					v = uint64(int64(1)<<(d-1)) + uint64(int64(it%7)-3)
+				}
+				want := int64(v)
+				if want > maxS {
+					want = maxS
+				} else if want < minS {
+					want = minS
+				}
+				if got := bd.SignedValue(int64(v)); got != want {
+					mu.Lock()
+					if len(bad) < 8 {
+						bad = append(bad, rec{"sv", d, v, uint64(got)})
+					}
+					mu.Unlock()
+				}
+				wantU := v
+				if wantU > maxU {
+					wantU = maxU
+				}
+				if got := bd.UnsignedValue(v); got != wantU {
+					mu.Lock()
+					if len(bad) < 8 {
+						bad = append(bad, rec{"uv", d, v, got})
+					}
+					mu.Unlock()
+				}
+				if it%64 == 0 {
+					if a, b2, c := bd.MaxSignedValue(), bd.MaxUnsignedValue(), bd.MinSignedValue(); a != maxS || b2 != maxU || c != minS {
+						mu.Lock()
+						if len(bad) < 8 {
+							bad = append(bad, rec{"bd", d, uint64(a), b2})
+						}
+						mu.Unlock()
+					}
+				}
+			}
+		}(gi, d, seed)
+	}
+	wg.Wait()
+	for _, x := range bad {
+		switch x.kind {
+		case "sv":
+			fmt.Fprintf(g.out, "sv %d %d %d\n", x.b, int64(x.v), int64(x.got))
+		case "uv":
+			fmt.Fprintf(g.out, "uv %d %d %d\n", x.b, x.v, x.got)
+		case "bd":
+			bd := signal.BitDepth(x.b)
+			fmt.Fprintf(g.out, "bd %d %d %d %d\n", x.b, int64(x.v), x.got, bd.MinSignedValue())
+		}
+		g.st.lines++
+	}
+	g.st.Branches["c16-concurrent-goroutines"] += len(depths)
+	g.st.Branches["c16-concurrent-differences"] += len(bad)
 }
 
 // ---------- C17 ----------
@@ -835,6 +956,21 @@ func genC16(g *Kern, r *Rng, tier string) {
 func genC17(g *Kern, r *Rng, tier string) {
 	rates := []float64{8000, 11025, 16000, 22050, 32000, 44100, 48000, 88200, 96000, 176400, 192000, 352800, 384000, 2822400, 5644800,
 		1, 2, 3, 7, 10, 50, 60, 1000, 999999, 1000000, 0.5, 0.1, 29.97, 23.976, 44099.5, 1e-3, 3.5e6}
+	// every standard sample rate: 8000, 11025 and 12000 Hz times powers of two up to 24.576 MHz (tables of "known
+	// rates" are a natural place for a typo), and the pulled-down / pulled-up video rates
+	seenRate := map[float64]bool{}
+	for _, f := range rates {
+		seenRate[f] = true
+	}
+	for _, base := range []float64{8000, 11025, 12000} {
+		for k := 0; k <= 11; k++ {
+			if f := base * float64(int(1)<<k); f <= 24576000 && !seenRate[f] {
+				rates = append(rates, f)
+				seenRate[f] = true
+			}
+		}
+	}
+	rates = append(rates, 47952, 48048, 44056, 44144, 50000, 50400, 37800, 18900)
 	nr := 60
 	per := 60
 	if tier == "thorough" {
